@@ -185,25 +185,25 @@ def run(ctx):
                 {"k": "spawn", "a": 0, "p": [["set", 2, 1, 1], ["qfree", 2, 1], ["set", 0, 0, 1]]},
                 {"k": "tick", "i": 0}, last, {"k": "stop", "a": 0}, {"k": "stop", "a": 1},
                 {"k": "init", "a": 0, "n": 2}, {"k": "sub", "a": 0, "fuel": 20, "or": [], "p": al}]}, "abort")
-    n_abort = 5000 if ctx.thorough else 400
+    n_abort = 3500 if ctx.thorough else 400
     for k in range(n_abort):
         check(H.abort_scenario(rng, rng.choice([10, 20, 40])), "abort")
         if len(res.failures) >= 5 or len(res.disagreements) >= 5:
             return res
     # several executors in one process
-    n_multi = 3000 if ctx.thorough else 250
+    n_multi = 2000 if ctx.thorough else 250
     for k in range(n_multi):
         check(H.multi_scenario(rng, rng.choice([15, 30, 60])), "multi-executor")
         if len(res.failures) >= 5 or len(res.disagreements) >= 5:
             return res
 
-    n_par = 8000 if ctx.thorough else 500
+    n_par = 6000 if ctx.thorough else 500
     for k in range(n_par):
         check(H.par_scenario(rng, rng.choice([10, 20, 40])), "interleaved")
         if len(res.failures) >= 5 or len(res.disagreements) >= 5:
             return res
 
-    n_walks = 12000 if ctx.thorough else 600
+    n_walks = 9000 if ctx.thorough else 600
     for k in range(n_walks):
         msg = k % 4 == 3
         g = H.Gen(rng, encodable=msg)
